@@ -136,8 +136,15 @@ pub fn check_doc(doc: &Doc) -> Result<(usize, usize), (String, String)> {
     }
 
     // --- the reset document
-    for uri in ["/json-delta".to_string(),
-                format!("/json-delta?session={}&serial=0", session.wrapping_add(1))] {
+    // no parameters, and sessions of other server instances (started a
+    // second / an hour earlier or later; differing only above bit 16) with
+    // serials this instance knows
+    let mut reset_uris = vec!["/json-delta".to_string()];
+    for other in [session.wrapping_add(1), session.wrapping_sub(1), session.wrapping_add(3600), session.wrapping_sub(3600), session ^ (1 << 16), session ^ (1 << 40)] {
+        for serial in [0, cur_serial] { reset_uris.push(format!("/json-delta?session={other}&serial={serial}")); }
+    }
+    reset_uris.dedup();
+    for uri in reset_uris {
         let ans = util::catch(|| httpd.get(&uri, &[]))
             .map_err(|e| ("panic".to_string(), format!("handler panicked: {e}")))?;
         max_chunks = max_chunks.max(ans.chunks.len());
@@ -151,7 +158,7 @@ pub fn check_doc(doc: &Doc) -> Result<(usize, usize), (String, String)> {
             || field(&v, "session")? != json!(session.to_string())
             || field(&v, "serial")? != json!(cur_serial)
         {
-            return Err(("reset-head".into(), "reset document header wrong".into()))
+            return Err(("reset-head".into(), format!("{uri} (own session {session}): expected a reset document with the own session and serial {cur_serial}, got reset={} session={} serial={}", v["reset"], v["session"], v["serial"])))
         }
         let mut all = Vec::new();
         for o in &doc.new.origins { all.push(expect_item(&Payload::Origin(*o))); }
@@ -288,9 +295,9 @@ pub fn run(ctx: &Ctx) -> Report {
     let mut multi_chunk = 0;
     for (i, r) in res.into_iter().enumerate() {
         rep.evaluations += 3;
+        if docs[i].1.old != docs[i].1.new { rep.nontrivial += 1; }
         match r {
-            Ok((items, chunks)) => {
-                if items > 0 { rep.nontrivial += 1; }
+            Ok((_, chunks)) => {
                 if chunks > 1 { multi_chunk += 1; }
                 rep.outcome(format!("ok:chunks={chunks}"));
             }
